@@ -876,7 +876,8 @@ def stream_frame(ctx, rule):
             if not adv:
                 ctx.violation(rule, "%s|part-end-no-advance" % rule, "when the current part's stream ends the position stays at %s: the same part is installed and streamed again" % short(stt, 40),
                               where=_last_where(o))
-            else:
+            elif kind != "Err":
+                # (a turn that goes on and fails - fused to the end state - is the error rules' business)
                 # ... and it advances to the start of the *next* part (or to the trailer when that was the last one): h' = h + 1
                 # (p' = 0, or 1 when the same turn went on to emit that part's header / the trailer)
                 nxt = mk_binop("Add", H, const(1))
